@@ -68,4 +68,20 @@ theorem lowest_is_least (f : Option Nat) :
 example : mayWrite false 2 (some 6) = true ∧ mayWrite false 1 (some 6) = false ∧
     lowest (some 6) = 2 := by decide
 
+/-- Non-vacuity of the monotonicity theorems (hypotheses `v ≤ v'` and "was shown before"
+discharged): what VERY_VERBOSE shows, DEBUG shows; a quiet output shows nothing, so the premise
+of `mayWrite_unquiet_mono` / `raising_never_removes` can only hold for `q = false`. -/
+example : mayWrite false 4 (some 6) = true :=
+  mayWrite_mono_verbosity false 2 4 (some 6) (by decide) (by decide)
+
+example : mayWrite false 4 (some 1) = true :=
+  raising_never_removes false 1 4 (some 1) (by decide) (by decide)
+
+example : mayWrite false 1 (some 5) = true :=
+  mayWrite_unquiet_mono false 1 (some 5) (by decide)
+
+/-- `lowest_is_least` on a word with two levels and on the empty word -/
+example : requested (some 6) = [2, 4] ∧ lowest (some 6) = 2 ∧ requested none = [] ∧ lowest none = 0 := by
+  decide
+
 end Clikit.Props.C10
